@@ -42,6 +42,11 @@ SPECS = {
     'base': [['EUR', 'i:1', 'i:1']],
     # float amounts whose shortest repr is a tie at the 7th decimal while
     # the exact binary value is not
+    # one currency quoted several times in one call, spelled as object, ISO
+    # code, object: the last quote counts
+    'usdrep': [['USD', 'D:1.1', 'i:1'], ['s:USD', 'D:1.2', 'i:1'],
+               ['USD', 'D:1.3', 'i:1'], ['s:JPY', 'i:130', 'i:1'],
+               ['JPY', 'i:140', 'i:1'], ['s:JPY', 'i:150', 'i:1']],
     'usdf': [['USD', 'f:1.0000005', 'i:1'], ['JPY', 'f:8.5000015', 'i:1']],
 }
 S_QUICK = ['usd11', 'jpy', 'usdstr', 'ok+bad']
